@@ -306,3 +306,77 @@ func init() {
 	registerKind("c05.stale", runC05Stale)
 	childKinds["c05.stale"] = true
 }
+
+// c19.renamerace (child process): a FORCED schedule. While a rename of dataset x is parked between "record moved" and
+// "meta entity of the new name stored" (core.Dataset's write lock is held by the harness), a writer stores a new entity
+// into the dataset. The rename holds the dataset's own write lock for its whole duration, so the writer waits and its
+// counter update finds the new meta entity: afterwards items(y) = number of distinct ids in y.
+func runC19RenameRace(c *Ctx, in M) (out interface{}) {
+	h := OpenHub(filepath.Join(c.Dir, "c19r"), false)
+	defer h.Destroy()
+	h.Dsm.CreateDataset("x", nil)
+	h.Store.NamespaceManager.AssertPrefixMappingForExpansion(storeNS)
+	mk := func(id string) *server.Entity {
+		e := server.NewEntity(id, 0)
+		e.Properties["ns3:v"] = 1
+		return e
+	}
+	x := h.Dsm.GetDataset("x")
+	if err := x.StoreEntities([]*server.Entity{mk("ns3:e1"), mk("ns3:e2")}); err != nil {
+		return M{"completed": false, "problems": []string{"setup: " + err.Error()}}
+	}
+	core := h.Dsm.GetDataset("core.Dataset")
+	core.VerifLock()
+	rdone := make(chan error, 1)
+	go func() {
+		_, err := h.Dsm.UpdateDataset("x", &server.UpdateDatasetConfig{ID: "y"})
+		rdone <- err
+	}()
+	time.Sleep(time.Duration(geti(in, "parkMs")) * time.Millisecond) // the rename parks on core.Dataset's lock
+	wdone := make(chan error, 1)
+	go func() {
+		ds := h.Dsm.GetDataset("y")
+		if ds == nil {
+			ds = x
+		}
+		wdone <- ds.StoreEntities([]*server.Entity{mk("ns3:e3")})
+	}()
+	time.Sleep(time.Duration(geti(in, "parkMs")) * time.Millisecond)
+	core.VerifUnlock()
+	problems := []string{}
+	for _, ch := range []chan error{rdone, wdone} {
+		select {
+		case err := <-ch:
+			if err != nil {
+				problems = append(problems, "operation failed: "+err.Error())
+			}
+		case <-time.After(20 * time.Second):
+			return M{"completed": false, "problems": []string{"hang"}}
+		}
+	}
+	y := h.Dsm.GetDataset("y")
+	if y == nil {
+		return M{"completed": true, "problems": []string{"dataset y missing after the rename"}, "lookupErrors": false}
+	}
+	res, _ := y.GetEntities("", 0)
+	meta, err := h.Store.GetEntity("ns0:y", []string{"core.Dataset"}, true)
+	if err != nil || meta == nil {
+		problems = append(problems, "no meta entity for y")
+	} else if fmt.Sprint(meta.Properties["ns0:items"]) != fmt.Sprint(len(res.Entities)) {
+		problems = append(problems, fmt.Sprintf("items counter of y is %v, the dataset holds %d distinct ids", meta.Properties["ns0:items"], len(res.Entities)))
+	}
+	sort.Strings(problems)
+	return M{"completed": true, "problems": problems, "lookupErrors": false}
+}
+
+func genC19RenameRace(c *Ctx) {
+	for _, park := range []int{80, 200} {
+		c.DoChild("c19.renamerace", M{"parkMs": park}, 40*time.Second)
+	}
+}
+
+func init() {
+	register("c19race", genC19RenameRace)
+	registerKind("c19.renamerace", runC19RenameRace)
+	childKinds["c19.renamerace"] = true
+}
